@@ -42,6 +42,7 @@ type outcome struct {
 }
 
 var ansiRE = regexp.MustCompile("\x1b\\[[0-9;]*m")
+var digitNameRE = regexp.MustCompile(`[\[,]\s*[0-9]\w*\s*=`)
 
 func normalize(m *sysl.Module) (o outcome) {
 	defer func() {
@@ -151,6 +152,10 @@ type caseResult struct {
 	perr    error
 	o1, o2  outcome
 	genInfo *gen
+	wantTr  bool
+	wantCli bool
+	cli     *cliOutcome // the same specification through the real `sysl transform` binary (a few of the generated ones)
+	tr      *trOutcome // the relational model as the identity transform script sees it (a subset of the cases)
 }
 
 func main() {
@@ -203,7 +208,17 @@ func main() {
 			return
 		}
 		cr := &caseResult{rp: rp, m: m, o1: normalize(m), o2: normalize(m)}
+		if cr.o1.kind != "panic" {
+			tr := runTransform(m)
+			cr.tr = &tr
+		}
 		judge(c, cr)
+		if cr.tr != nil {
+			judgeTransform(c, cr)
+		}
+		if bin := os.Getenv("VERIF_SYSL_BIN"); bin != "" && rp.Kind == "gen" && rp.Strip == "" {
+			judgeCli(c, cr, runCli(bin, rp.Text))
+		}
 		c.Count(rp.File+rp.Text, true)
 		fmt.Printf("replay kind=%s file=%s outcome=%s %s failures=%d\n", rp.Kind, rp.File, cr.o1.kind, cr.o1.msg, len(c.Res.Failures))
 		for _, f := range c.Res.Failures {
@@ -244,6 +259,10 @@ func main() {
 	// two fixed specifications for the payload reader: listed primitives / names that begin with one; a name given twice
 	inputs = append(inputs, &caseResult{rp: replay{Kind: "gen", Text: "A:\n    !type T0:\n        x <: int\n    E:\n        return ok <: int64\n        return 200 <: sequence of datetime [~hdr]\n        return ok <: integer\n"}})
 	inputs = append(inputs, &caseResult{rp: replay{Kind: "gen", Text: "A:\n    !type T0:\n        x <: int\n    E:\n        return ok <: T0 [k=\"1\", k=\"2\"]\n"}})
+	// a view without a return type (parseFieldType must not dereference the nil type); every machine type and size form, a
+	// union, a view with parameters
+	inputs = append(inputs, &caseResult{rp: replay{Kind: "gen", Text: "A:\n    !type T0:\n        id <: int\n    !view v1(p <: T0):\n        p -> (:\n            id = p.id\n        )\n"}})
+	inputs = append(inputs, &caseResult{rp: replay{Kind: "gen", Text: "A:\n    !type T0:\n        id <: int\n        a <: int32\n        b <: int64?\n        c <: float32\n        d <: float64\n        e <: sequence of int64\n        f <: int(5)\n        g <: bytes(16)\n        h <: string(8..)\n        i <: decimal(5)\n        j <: decimal(10.2)\n        k <: string(2..10)\n    !union Un [~u]:\n        T0\n        string\n    !view vw(p <: T0, n <: int64) -> sequence of T0 [~t1]:\n        p -> <T0>(:\n            id = p.id + 3\n        )\n"}})
 	for _, f := range files[:nCorpus] {
 		inputs = append(inputs, &caseResult{rp: replay{Kind: "corpus", File: f}})
 	}
@@ -264,6 +283,27 @@ func main() {
 		inputs = append(inputs, &caseResult{rp: replay{Kind: "direct", Seed: c.Rng.Uint64() >> 1}})
 	}
 
+	// `sysl transform` (BuildTransformInput + the identity script) on every third input, on two of three in the thorough tier
+	for i, cr := range inputs {
+		cr.wantTr = (c.Thorough() && i%2 == 0) || i%3 == 0 || i < 7
+	}
+	syslBin := os.Getenv("VERIF_SYSL_BIN")
+	nCli := 8
+	if c.Thorough() {
+		nCli = 40
+	}
+	if syslBin == "" {
+		c.Res.Notes = append(c.Res.Notes, "VERIF_SYSL_BIN not set: the `sysl transform` command-line stream was skipped")
+		nCli = 0
+	}
+	for _, cr := range inputs {
+		// (a payload attribute whose name begins with a digit is printed by arr.ai in a form it cannot read back)
+		if nCli > 0 && cr.rp.Kind == "gen" && cr.rp.Strip == "" && !digitNameRE.MatchString(cr.rp.Text) {
+			cr.wantCli = true
+			nCli--
+		}
+	}
+
 	// ---- compile and normalize, a few inputs at a time (each parse.Parser is independent; the parser itself reads
 	// imports concurrently)
 	t0 := time.Now()
@@ -281,6 +321,14 @@ func main() {
 			}
 			cr.o1 = normalize(cr.m)
 			cr.o2 = normalize(cr.m)
+			if cr.wantTr && cr.o1.kind != "panic" {
+				tr := runTransform(cr.m)
+				cr.tr = &tr
+			}
+			if cr.wantCli {
+				o := runCli(syslBin, cr.rp.Text)
+				cr.cli = &o
+			}
 		}(cr)
 	}
 	wg.Wait()
@@ -296,6 +344,8 @@ Definition Ap := Build_app. Definition R := mk. Definition R2 := mk2. Definition
 Definition SL := SLeaf. Definition SB := SBlock. Definition SA := SAlt. Definition An := Build_anno. Definition Sc := Build_srcctx.`
 	footer := `Definition M := Eval vm_compute in mismatches (c17_ok child_index_mode alt_index_mode payload_grammar) cases. Print M.`
 	cs := c.NewCases("C17", header, "c17_case", footer, 12)
+	trFooter := `Definition M := Eval vm_compute in mismatches (c17_tr_ok child_index_mode alt_index_mode payload_grammar) cases. Print M.`
+	var trCases []*caseResult
 
 	for _, cr := range inputs {
 		src := cr.rp.Kind
@@ -326,6 +376,16 @@ Definition SL := SLeaf. Definition SB := SBlock. Definition SA := SAlt. Definiti
 			continue
 		}
 		cs.Add(term, cr.rp)
+		if cr.cli != nil {
+			judgeCli(c, cr, *cr.cli)
+		}
+		if cr.tr != nil {
+			judgeTransform(c, cr)
+			c.Hist("transform:" + cr.tr.kind)
+			if cr.tr.kind == "ok" || cr.tr.kind == "err" {
+				trCases = append(trCases, cr)
+			}
+		}
 		if cr.rp.Kind == "direct" && st.depth >= 5 && len(c.Res.Samples) < 2 {
 			c.Sample(map[string]interface{}{"kind": "direct", "seed": cr.rp.Seed, "outcome": cr.o1.kind, "max_depth": st.depth, "statements": st.stmts})
 		}
@@ -338,6 +398,22 @@ Definition SL := SLeaf. Definition SB := SBlock. Definition SA := SAlt. Definiti
 		}
 	}
 	cs.Close()
+	// the same modules against what the script saw: relation by relation as SETS of rows
+	tcs := c.NewCases("C17tr", header, "c17_case", trFooter, 12)
+	for _, cr := range trCases {
+		if cr.tr.kind == "ok" && schemaSize(cr.tr.s) > 1500 {
+			c.Hist("transform:too-large-for-coq")
+			continue
+		}
+		o := outcome{kind: "err"}
+		if cr.tr.kind == "ok" {
+			o = outcome{kind: "ok", s: cr.tr.s}
+		}
+		if term, ok := project(&caseResult{rp: cr.rp, m: cr.m, o1: o}); ok {
+			tcs.Add(term, cr.rp)
+		}
+	}
+	tcs.Close()
 
 	// ---- payload stream: one return payload, normalized alone
 	nValid, nMut, nSoup := 170, 150, 150
